@@ -12,7 +12,7 @@
 
    [explain] tells which of the two observations disagrees. *)
 From Coq Require Import List ZArith NArith Bool.
-From YV Require Import Cond.Syntax Cond.Sem Cond.Quirks Cond.RuleSet Cond.Machine Cond.Emit Cond.IrTree.
+From YV Require Import Cond.Syntax Cond.Sem Cond.Rename Cond.Quirks Cond.RuleSet Cond.Machine Cond.Emit Cond.IrTree Cond.Wasm.
 Import ListNotations.
 
 Record case := mkCase {
@@ -27,7 +27,15 @@ Record case := mkCase {
   c_warm_pub : list nat;
   (* the IR the compiler built for every rule, in rule order: the dump that
      Compiler::set_ir_writer received, parsed by the harness *)
-  c_ir : list irn
+  c_ir : list irn;
+  (* per rule: the PatternId the compiler gave to each declared pattern
+     (identical patterns of the set share one id; hook
+     Rules::verif_c02_pattern_ids).  The emitted code refers to patterns by
+     these ids. *)
+  c_pids : list (list nat);
+  (* the code the compiler emitted for every rule, in rule order: the block of
+     emit_rule_condition, decoded from the module Compiler::emit_wasm_file wrote *)
+  c_wasm : list (list winstr)
 }.
 
 Fixpoint nat_list_eqb (a b : list nat) : bool :=
@@ -52,26 +60,38 @@ Definition agrees_warm (c : case) : bool :=
    EmitProofs.v proves this for all conditions of the proved fragment; here
    it is evaluated on the generated ones. *)
 Definition machine_fuel : nat := 400000.
-Fixpoint machine_rules (data : list Z) (globals : list value) (rules : list rule) (acc : list bool) : bool :=
+(* the condition as the emitter sees it: folded, patterns named by PatternId *)
+Definition gid (pids : list nat) (i : nat) : nat := nth i pids 0%nat.
+Definition emitted_cond (pids : list nat) (e : expr) : expr := rename (gid pids) (prefold e).
+Fixpoint local_of (g : nat) (pids : list nat) (k : nat) : option nat :=
+  match pids with
+  | [] => None
+  | x :: t => if Nat.eqb x g then Some k else local_of g t (S k)
+  end.
+Fixpoint machine_rules (data : list Z) (globals : list value) (rules : list rule) (pidss : list (list nat)) (acc : list bool) : bool :=
   match rules with
   | [] => true
   | r :: t =>
+      let pids := hd [] pidss in
       let en := rule_env data globals acc r in
       let v := holds en (r_cond r) in
-      let ir := prefold (r_cond r) in
+      let ir := emitted_cond pids (r_cond r) in
+      (* match lists by PatternId: those of (any of) the rule's patterns with that id *)
+      let pmg := fun g : nat => match local_of g pids 0 with Some i => e_pm en i | None => [] end in
       (match tyof [] 0 ir with
        | Some TBool =>
-           match run_condition data (e_pm en) (e_rules en) (e_globals en) machine_fuel ir with
+           match run_condition data pmg (e_rules en) (e_globals en) machine_fuel ir with
            | Some b => Bool.eqb b v
            | None => false
            end
        | _ => true
-       end) && machine_rules data globals t (acc ++ [v])
+       end) && machine_rules data globals t (tl pidss) (acc ++ [v])
   end.
-Definition machine_agrees (c : case) : bool := machine_rules (c_data c) (c_globals c) (c_rules c) [].
+Definition machine_agrees (c : case) : bool := machine_rules (c_data c) (c_globals c) (c_rules c) (c_pids c) [].
 (* how many conditions of the case are in the fragment (reported by the check) *)
 Definition in_fragment (c : case) : list bool :=
-  map (fun r => match tyof [] 0 (prefold (r_cond r)) with Some TBool => true | _ => false end) (c_rules c).
+  map (fun rp => match tyof [] 0 (emitted_cond (snd rp) (r_cond (fst rp))) with Some TBool => true | _ => false end)
+      (combine (c_rules c) (c_pids c)).
 
 (* Typing of identifiers, constant folding and slot allocation, exactly: the
    IR the compiler built for every rule is the tree [IrTree.ir_of] predicts
@@ -86,10 +106,25 @@ Definition ir_matches (c : case) : bool := ir_rules (c_rules c) (c_ir c).
 (* number of IR nodes compared *)
 Definition ir_nodes (c : case) : nat := fold_right (fun i n => (irn_size i + n)%nat) 0%nat (c_ir c).
 
+(* The emitter, exactly: for every rule whose folded condition lies in the
+   fragment of Cond/Emit.v, the emitted code is the code Emit.emit_condition
+   predicts, instruction by instruction (Cond/Wasm.v). *)
+Fixpoint wasm_rules (rules : list rule) (pidss : list (list nat)) (ws : list (list winstr)) : bool :=
+  match rules, pidss, ws with
+  | [], [], [] => true
+  | r :: t, p :: ps, w :: u => wasm_agrees (emitted_cond p (r_cond r)) w && wasm_rules t ps u
+  | _, _, _ => false
+  end.
+Definition wasm_matches (c : case) : bool := wasm_rules (c_rules c) (c_pids c) (c_wasm c).
+(* number of emitted instructions compared (rules of the fragment only) *)
+Definition wasm_compared (c : case) : nat :=
+  fold_right (fun rw n => match tyof [] 0 (emitted_cond (snd (fst rw)) (r_cond (fst (fst rw)))) with Some TBool => (wsize (snd rw) + n)%nat | _ => n end)
+             0%nat (combine (combine (c_rules c) (c_pids c)) (c_wasm c)).
+
 (* the documented meaning predicts the observation, and also the observation
    made with the pattern search forced up-front (regression assert for the
    skipped lazy search repaired by commit e5009a16: both runs must agree) *)
-Definition check_case (c : case) : bool := agrees c && agrees_warm c && machine_agrees c && ir_matches c.
+Definition check_case (c : case) : bool := agrees c && agrees_warm c && machine_agrees c && ir_matches c && wasm_matches c.
 Definition spec_case (c : case) : bool := check_case c.
 
 (* 0: both observations are predicted;
@@ -98,9 +133,11 @@ Definition spec_case (c : case) : bool := check_case c.
    8: only the plain run is predicted;
    9: only the emitted-code model (Emit.v run on Machine.v) disagrees;
    10: only the IR the compiler built differs from the predicted tree;
+   11: only the emitted code differs from the code Emit.v predicts;
    255: neither *)
 Definition explain (c : case) : N :=
   if check_case c then 0%N
+  else if agrees c && agrees_warm c && machine_agrees c && ir_matches c then 11%N
   else if agrees c && agrees_warm c && machine_agrees c then 10%N
   else if agrees c && agrees_warm c then 9%N
   else if agrees_warm c then 5%N
